@@ -28,11 +28,17 @@ Definition lp_eqb (a b : lprov) : bool :=
   (lp_last a =? lp_last b).
 
 Definition pools_eqb (m1 m2 : store pool) : bool := list_eqb (pair_eqb Z.eqb pool_eqb) m1 m2.
-Definition lps_eqb (m1 m2 : store lprov) : bool := list_eqb (pair_eqb Z.eqb lp_eqb) m1 m2.
+Definition lps_norm (m : store (store lprov)) := filter (fun kv => match snd kv with [] => false | _ => true end) m.
+Definition lps_eqb (m1 m2 : store (store lprov)) : bool :=
+  list_eqb (pair_eqb Z.eqb (list_eqb (pair_eqb Z.eqb lp_eqb))) (lps_norm m1) (lps_norm m2).
+Definition bal_norm (m : store (store Z)) : store (store Z) :=
+  filter (fun kv => match snd kv with [] => false | _ => true end) (map (fun kv => (fst kv, zstore_norm (snd kv))) m).
+Definition bal_eqb (m1 m2 : store (store Z)) : bool :=
+  list_eqb (pair_eqb Z.eqb (list_eqb (pair_eqb Z.eqb Z.eqb))) (bal_norm m1) (bal_norm m2).
 
 (* first differing field of two clp states: 0 = equal *)
 Definition clp_diff (a b : clp_state) : Z :=
-  if negb (zstore_eqb (balances (cs_bank a)) (balances (cs_bank b))) then 2
+  if negb (bal_eqb (balances (cs_bank a)) (balances (cs_bank b))) then 2
   else if negb (zstore_eqb (supply (cs_bank a)) (supply (cs_bank b))) then 3
   else if negb (pools_eqb (cs_pools a) (cs_pools b)) then 4
   else if negb (lps_eqb (cs_lps a) (cs_lps b)) then 5
